@@ -268,6 +268,12 @@ def run_case(case):
         def do(oi):
             z = objs[oi]
             z.worker._vobj = oi
+            if "reset" not in z.__dict__:
+                # extract() replaces the worker (it resets the session itself): the new one belongs to the same object
+                def reset_keeping_tag(_z=z, _oi=oi, _orig=z.reset):
+                    _orig()
+                    _z.worker._vobj = _oi
+                z.reset = reset_keeping_tag
             rounds["n"] += 1
             use_cb = None
             if oi == 0 and cb is not None and rounds["n"] not in case.get("nocb", []):
